@@ -668,8 +668,29 @@ func c10R2(c *Check, sr *storeRoles) {
 				"time_added is written with "+name+" instead of HSETNX: every write moves the creation time, stretching the absolute limit")
 		}
 	}
-	c.Obl(nx >= 2, "C10.R2", "redis-created-write/count", "-", fmt.Sprintf("%d writes of time_added", nx),
-		fmt.Sprintf("only %d writes of time_added found (both set operations must record the creation time)", nx))
+	// both set operations record the creation time (directly or through a shared helper method)
+	for _, wn := range []string{"SetTokenResponse", "SetAuthorizationState"} {
+		for _, fn := range sr.redisMethods {
+			if fn.Name() != wn || fn.Parent() != nil {
+				continue
+			}
+			has := false
+			for _, ci := range deepCalls(fn, 2) {
+				ce := calleeOf(ci)
+				if ce.Obj == nil || ce.Obj.Name() != "HSetNX" {
+					continue
+				}
+				for _, a := range callArgs(ci) {
+					if s2, isC := constString(a); isC && s2 == "time_added" {
+						has = true
+					}
+				}
+			}
+			c.Obl(has, "C10.R2", "redis-created-write/"+wn, P.Pos(fn.Pos()), wn+" records time_added with HSETNX", wn+" no longer records the creation time (time_added) with HSETNX")
+		}
+	}
+	c.Obl(nx >= 1, "C10.R2", "redis-created-write/count", "-", fmt.Sprintf("%d write sites of time_added", nx),
+		fmt.Sprintf("only %d write sites of time_added found", nx))
 }
 
 func c10R3(c *Check, sr *storeRoles) {
@@ -689,6 +710,20 @@ func c10R3(c *Check, sr *storeRoles) {
 		var rcalls []*ssa.Call
 		for _, ci := range callsToFn(fn, ref) {
 			rcalls = append(rcalls, ci.(*ssa.Call))
+		}
+		// calls of own helper methods whose every successful return passes the refresher count as refresher calls
+		for _, ci := range allCalls(fn) {
+			cc, ok := ci.(*ssa.Call)
+			if !ok {
+				continue
+			}
+			h := cc.Common().StaticCallee()
+			if h == nil || h == ref || h == fn || recvNamed(h) != sr.Redis || h.Blocks == nil {
+				continue
+			}
+			if helperPassesRefresher(h, ref) {
+				rcalls = append(rcalls, cc)
+			}
 		}
 		n := 0
 		for _, r := range returnsOf(fn) {
@@ -898,13 +933,31 @@ func c10R4(c *Check, sr *storeRoles) {
 						if isCallTo(x, idOIDCConfig+".GetIdleSessionTimeout") {
 							getter += "idle"
 						}
+						if h := x.Common().StaticCallee(); h != nil && h.Blocks != nil && isOwnPath(pkgPathOf(h)) && !strings.HasPrefix(pkgPathOf(h), modPath+"/config/gen/go") {
+							for _, r := range returnsOf(h) {
+								if len(r.Results) == 1 {
+									walk(r.Results[0], d-1)
+								}
+							}
+						}
 					case *ssa.Phi:
 						for _, e := range x.Edges {
 							walk(e, d-1)
 						}
+					case *ssa.Extract:
+						// a helper that computes both timeouts: follow the matching result
+						if hc, isC := x.Tuple.(*ssa.Call); isC {
+							if h := hc.Common().StaticCallee(); h != nil && h.Blocks != nil && isOwnPath(pkgPathOf(h)) {
+								for _, r := range returnsOf(h) {
+									if x.Index < len(r.Results) {
+										walk(r.Results[x.Index], d-1)
+									}
+								}
+							}
+						}
 					}
 				}
-				walk(arg, 6)
+				walk(arg, 8)
 				c.Obl(getter == role && secs, "C10.R4", fmt.Sprintf("wiring/%s/%s", nthCallKey(site), role), P.Pos(site.Pos()),
 					"parameter "+p.Name()+" ← Get"+strings.Title(role)+"SessionTimeout() · time.Second",
 					fmt.Sprintf("constructor parameter %s receives the %q timeout (seconds scaling: %v): the two limits are swapped or mis-scaled", p.Name(), getter, secs))
@@ -952,4 +1005,48 @@ func c10R4(c *Check, sr *storeRoles) {
 	}
 	c.Obl(reg, "C10.R4", "registered-in-main", P.Pos(main.Pos()), "the session store factory is registered as a run.Group unit (its PreRun builds the stores)",
 		"the session store factory is not registered with the run.Group in main: PreRun never builds the stores with the configured timeouts")
+}
+
+
+// helperPassesRefresher: every return of h whose error may be nil is the refresher's own result or is
+// dominated by a refresher call with err == nil.
+func helperPassesRefresher(h, ref *ssa.Function) bool {
+	res := h.Signature.Results()
+	if res.Len() == 0 || !isErrorType(res.At(res.Len()-1).Type()) {
+		return false
+	}
+	var rcalls []*ssa.Call
+	for _, ci := range callsToFn(h, ref) {
+		rcalls = append(rcalls, ci.(*ssa.Call))
+	}
+	if len(rcalls) == 0 {
+		return false
+	}
+	ff := FactsOf(h)
+	for _, r := range returnsOf(h) {
+		errV := r.Results[len(r.Results)-1]
+		for _, l := range Leaves(errV, leafOpts{noConcat: true}) {
+			viaRef := false
+			for _, rc := range rcalls {
+				if l == ssa.Value(rc) {
+					viaRef = true
+				}
+			}
+			if viaRef {
+				continue
+			}
+			if isNilConst(l) {
+				ok := false
+				for _, rc := range rcalls {
+					if ff.At(r).CallErrNil(rc, -1) {
+						ok = true
+					}
+				}
+				if !ok {
+					return false
+				}
+			}
+		}
+	}
+	return true
 }
